@@ -141,6 +141,77 @@ example : round exU lPatch 101 = none := by decide   -- 1.1.0 is a minor step fr
 
 end Scalibr.Override
 
+namespace Scalibr.OverrideMulti
+open Scalibr.Upgrade Scalibr.Override
+
+/-- Override with several packages, any round: the requirement a round leaves for package `p` is either
+the one it found, or a known version of `p` chosen against the version `p` resolves to IN THIS ROUND
+(whatever moved it there — its own earlier override or another package's): not below it (strictly above
+for a comparator that separates distinct versions), with a difference the package's level allows, the
+level not None, and with fewer of the vulnerabilities that affect the resolved version.  Any number of
+packages, records affecting several packages, any resolver. -/
+theorem C11_override_multi_step (u : MU) (res : Res) (pins : Pins) (p b : Nat) (h : stepP u res pins p = some b) :
+    pins.getD p none = some b ∨
+    ∃ r, res.getD p none = some r ∧ u.level p ≠ lNone ∧ b ∈ u.vs p ∧ allows (u.level p) (u.diff p r b) = true ∧
+      (Sorted (u.vs p) → r ≤ b) ∧ (StrictSorted (u.vs p) → r < b) ∧
+      ((vulnsAt u p r).filter (u.aff · p b)).length < (vulnsAt u p r).length := by
+  unfold stepP at h
+  cases hr : res.getD p none with
+  | none => simp only [hr] at h; exact Or.inl h
+  | some r =>
+    simp only [hr] at h
+    cases hp : pickP u p r with
+    | none => simp only [hp] at h; exact Or.inl h
+    | some c =>
+      simp only [hp, Option.some.injEq] at h
+      subst h
+      obtain ⟨h1, h2, h3, h4⟩ := pickP_spec u p r c hp
+      exact Or.inr ⟨r, rfl, h1, versionsGreater_sub _ _ c h2, h3, fun hs => versionsGreater_ge _ _ hs c h2,
+        fun hs => versionsGreater_gt _ _ hs c h2, h4⟩
+
+/-- a package at level None keeps its requirement in every round -/
+theorem C11_none_untouched_multi (u : MU) (res : Res) (pins : Pins) (p : Nat) (h : u.level p = lNone) :
+    stepP u res pins p = pins.getD p none := by
+  have hp : ∀ r, pickP u p r = none := by
+    intro r; unfold pickP pick; simp [h]
+  unfold stepP
+  cases res.getD p none <;> simp [hp]
+
+/-! Non-vacuity: two packages, two rounds.  Package 0 = app {1.0.0, 1.1.0}, package 1 = lib {1.0.0, 1.0.1, 1.0.5,
+1.0.6}; app 1.0.0 brings lib 1.0.0, app 1.1.0 brings lib 1.0.5.  Record 0 affects app 1.0.0 and lib ≤ 1.0.1, record 1
+affects lib 1.0.5.  Round 1 moves app to 1.1.0 and lib to 1.0.5; round 2 scans lib's candidates from 1.0.5 and moves
+it UP to 1.0.6. -/
+def exMU : MU := ⟨2, fun p => if p = 0 then [0, 1] else [0, 1, 2, 3], fun _ a b => if a = b then dSame else dPatch, 2,
+  fun v p r => if v = 0 then (if p = 0 then r = 0 else r ≤ 1) else (p = 1 && r = 2), fun _ => lMajor⟩
+def exResolve : Pins → Res := fun pins =>
+  let a := (pins.getD 0 none).getD 0
+  [some a, some ((pins.getD 1 none).getD (if a = 0 then 0 else 2))]
+example : loop exMU exResolve 5 [some 0, none] 0 = ([some 1, some 3], 2) := by decide
+
+/-
+Full-strength statement for several packages — "every override written moves its package strictly upward
+from the version it resolves to WITHOUT that override in the final manifest" — is FALSE for the unchanged
+code: each round judges every package against the versions resolved at the START of the round, so a
+dependencyManagement pin chosen for a transitive package can be overtaken by another package's override
+(of the same or a later round) whose newer version requires something newer still.  Known finding
+C11/override-pin-overtaken; in force: `C11_override_multi_step` (strictly upward from the version
+resolved in the round that chose it).
+-/
+
+/-- app {1.0.0, 1.1.0}, lib {1.0.0, 1.0.1, 1.0.5}; app 1.0.0 brings lib 1.0.0, app 1.1.0 brings lib 1.0.5; one record
+affects app 1.0.0 and lib 1.0.0.  One round overrides app to 1.1.0 AND pins lib to 1.0.1; without that pin the
+final manifest would resolve lib to 1.0.5. -/
+theorem C11_override_pin_overtaken_witness :
+    let u : MU := ⟨2, fun p => if p = 0 then [0, 1] else [0, 1, 2], fun _ a b => if a = b then dSame else dPatch, 1,
+      fun _ _ r => r = 0, fun _ => lMajor⟩
+    let resolve : Pins → Res := fun pins =>
+      let a := (pins.getD 0 none).getD 0
+      [some a, some ((pins.getD 1 none).getD (if a = 0 then 0 else 2))]
+    loop u resolve 5 [some 0, none] 0 = ([some 1, some 1], 1) ∧ resolve [some 1, none] = [some 1, some 2] := by
+  decide
+
+end Scalibr.OverrideMulti
+
 namespace Scalibr.Relax
 open Scalibr.Upgrade
 
